@@ -184,6 +184,37 @@ func r20ab(c *an.Ctx, summ map[string]string) {
 	chain := true
 	if len(tests) == 1 && an.InLoop(tests[0].Block()) {
 		chain = false
+		h0, _ := an.EnclosingLoop(tests[0].Block())
+		// array literal ranged by value: candidates[i] is an Index on a copy of the literal
+		if ix, ok := an.Strip(tests[0].Call.Args[1]).(*ssa.Index); ok && h0 != nil && strings.HasPrefix(h0.Comment, "rangeindex") {
+			if bo, isBo := ix.Index.(*ssa.BinOp); isBo && bo.Block() == h0 {
+				if ld, isLd := ix.X.(*ssa.UnOp); isLd && ld.Op == token.MUL {
+					if arr, isArr := ld.X.(*ssa.Alloc); isArr && arr.Referrers() != nil {
+						elems := map[int64]ssa.Value{}
+						for _, r := range *arr.Referrers() {
+							if ea, ok := r.(*ssa.IndexAddr); ok && ea.Referrers() != nil {
+								if k, isK := an.ConstInt(ea.Index); isK {
+									for _, rr := range *ea.Referrers() {
+										if st, ok := rr.(*ssa.Store); ok && st.Addr == ssa.Value(ea) {
+											elems[k] = st.Val
+										}
+									}
+								}
+							}
+						}
+						chain = len(elems) > 0
+						for k := int64(0); k < int64(len(elems)); k++ {
+							v, has := elems[k]
+							if !has {
+								chain = false
+								break
+							}
+							seq = append(seq, v)
+						}
+					}
+				}
+			}
+		}
 		if ld, ok := an.Strip(tests[0].Call.Args[1]).(*ssa.UnOp); ok && ld.Op == token.MUL {
 			if ia, ok := ld.X.(*ssa.IndexAddr); ok {
 				inRange := false
